@@ -335,11 +335,12 @@ ADDED3 = {
     'C07': ' F2 also: within one turn of the chain loop only the element\'s own text, the registry\'s answer and a DROP verdict decide whether '
            'the filter call is reached. F4 shares the silent-configuration clause of C04.',
     'C08': ' T3 also: the syslog converters return table values only; further accepted names must be documented aliases of printable values. '
-           'T4 also: every multiplication with the parsed number is formed in a 64-bit type.',
+           'T4 also: every multiplication with the parsed number is formed in a 64-bit type; no sizeof of a pointer in the length parser.',
     'C06': ' S5 also: cmdline/filename do not produce their value with the all-or-nothing append (a long value is cut, not refused).',
     'C11': ' N5: nothing reachable from the configuration constructor/destructor writes static storage.',
-    'C12': ' Q3 also: gethostname is given the data source\'s size parameter or a constant of at least 65.',
-    'C14': ' U3 accepts a countdown walk over the list; an item judged through another helper ends "not decided".',
+    'C12': ' Q3 also: gethostname is given the data source\'s size parameter or a constant of at least 65; strftime is given the whole buffer.',
+    'C15': ' X2 also: bounded copies (snprintf/strlcpy) into local arrays are given the array\'s size.',
+    'C14': ' U3 accepts a countdown walk over the list; an item judged through another helper ends "not decided"; an item narrowed through a signed 32-bit cast is compared in 32-bit unsigned.',
     'C17': ' W1 reads open flags from a local flags variable (bits set on every path / on some path).',
     'C18': ' Q3 also: the text read from the file is not stored into (or every store is undone on every path) before the new content is built.',
     'C19': ' Q5 also: the text read from the file is left intact (as C18 Q3).',
